@@ -2,6 +2,7 @@ import ObiVerif.Model.Tag
 import ObiVerif.Model.TagSel
 import ObiVerif.Model.TagV
 import ObiVerif.Model.TagTV
+import ObiVerif.Model.TagSetup
 import ObiVerif.Driver.Util
 /-!
 line protocol for C15 (see `harness/c15.go`)
@@ -45,6 +46,20 @@ verbatim, only the candidate orders of the real sort are data.
 the `*v` operations get NOTHING from the real kernels: only the candidate order(s) of the real (unstable) sort; the
 model runs the verbatim `FastLCSEGFScoreByte` (shared scratch buffer), `D1Or0`, byte comparison of `Model/TagV.lean`
 itself — ambiguity codes included (the verbatim kernels are transcriptions, not readings).
+```
+cl1 Q1,… R1,… T1,… id:parent,… old:new,…|_ | o(Q1) | … | o(Qn) | o(K0) | … | o(Km-1)
+                                   -> taxid bestmatch count ; …  | panic         (obitag.CLIAssignTaxonomy, `cliAssign1`)
+rx  R1,… T1,… id:parent,… old:new,…|_ | o(K0) | … | o(Km-1)   -> r<i> index ; …  | none   (obirefidx.IndexReferenceDB)
+s2  R1,… T1,… id:parent,… old:new,…|_                          -> ok | panic     (set-up of obitag2.CLIAssignTaxonomy)
+fw  R1,… T1,… id:parent,… old:new,…|_ i:j,i:-,… | o(member 0) | …   -> index ; … | err | panic
+                                                               (obirefidx.MakeIndexingSliceWorker, `sliceWorkerSetup`)
+```
+round 4, the set-up code (`Model/TagSetup.lean`): `Ti` = the `taxid` attribute of record i (`0` = no attribute), it may be
+absent from the taxonomy (record dropped by obitag / obirefidx) or an alias (`old:new`).  The model decides ITSELF which
+records are kept (verbatim compaction loops) and builds the parallel arrays; the searches read the 4-mer tables from the
+array built by the set-up (`findClosestsVC`, `indexSequenceVC`), the candidate orders (over the KEPT list, positions
+in it) are the only data.  `bestmatch` / `r<i>` are positions in the FILE.  `fw`: member `i:j` = record i of the data
+base carrying the id attribute j (`-` = none); the tables are those of the whole data base, fetched through j.
 `-` = empty sequence, `_` = empty list.  After ` | ` : the candidate order of the code and the unbounded
 `lcs:alilength` of each reference (one section for the query, then one per indexed reference for `id*`).
 Lengths and shared 4-mer counts are recomputed here from the sequences.
@@ -441,6 +456,129 @@ def runConc (rs ts tx qs xs : String) (secs : List String) : String :=
     | _, _ => "bad-data"
   | _, _, _, _, _ => "bad-op"
 
+/-! ## round 4: the set-up code (`Model/TagSetup.lean`) -/
+
+def mkTaxoA (nodes : List (Nat × Nat)) (al : List (Nat × Nat)) : Tax.Taxo :=
+  { ids := nodes.map (·.1), node := fun k => (nodes.lookup k).map (fun p => ⟨p, ""⟩),
+    alias := fun k => match al.lookup k with
+      | some n => if (nodes.lookup n).isSome then some n else none
+      | none => none }
+
+def mkRecs (refs : List Bytes) (taxids : List Nat) : List RefRec :=
+  (refs.zip taxids).map fun (r, x) => ⟨r, if x = 0 then none else some x⟩
+
+/-- is `o` a permutation of `0..n-1` sorted by non-increasing `cw`? -/
+def orderOkC (n : Nat) (cw : Nat → Nat) (o : List Nat) : Bool :=
+  o.length = n && (List.range n).all (fun i => o.contains i) &&
+  (o.zip (o.drop 1)).all (fun p => cw p.2 ≤ cw p.1)
+
+/-- a section holding a candidate order, checked against the tables of the ARRAY `counts` -/
+def orderOnlyC (n : Nat) (cq : Array Nat) (counts : Nat → Array Nat) (sec : String) : Option (List Nat) :=
+  match words sec with
+  | [o] => do
+    let o ← listOf String.toNat? o
+    if orderOkC n (fun i => common4mer cq (counts i)) o then pure o else none
+  | _ => none
+
+def showIdOut : IdOut → String
+  | .bad e => showBad e
+  | .ok z m n => s!"{z} {m} {n}"
+
+def runCL1 (qs rs ts tx al : String) (secs : List String) : String :=
+  match listOf unhex qs, listOf unhex rs, listOf String.toNat? ts, listOf pairOf tx, listOf pairOf al with
+  | some queries, some refs, some taxids, some nodes, some al =>
+    if taxids.length ≠ refs.length then "bad-op" else
+    let t := mkTaxoA nodes al
+    let fuel := nodes.length + 1
+    let recs := mkRecs refs taxids
+    let s := tag1Setup t recs
+    let m := s.refs.length
+    if secs.length ≠ queries.length + m then "bad-data" else
+    let cf := countFn s.counts
+    let pos := keptPos t recs
+    let qo := (queries.zip secs).mapM fun (q, sec) => orderOnlyC m (Kmer.count4mer q) cf sec
+    let ro := ((List.range m).zip (secs.drop queries.length)).mapM fun (b, sec) => orderOnlyC m (cf b) cf sec
+    match qo, ro with
+    | some qo, some ro =>
+      let roA := ro.toArray
+      let outs := (queries.zip qo).map fun (q, o) => cliAssign1 t fuel nameOf rankOf recs q o (fun b => roA.getD b [])
+      match outs.find? (fun x => match x with | .bad _ => true | _ => false) with
+      | some b => showIdOut b
+      | none =>
+        " ; ".intercalate (outs.map fun
+          | .bad e => showBad e
+          | .ok z bm n => s!"{z} {pos.getD bm 0} {n}")
+    | _, _ => "bad-data"
+  | _, _, _, _, _ => "bad-op"
+
+def runRX (rs ts tx al : String) (secs : List String) : String :=
+  match listOf unhex rs, listOf String.toNat? ts, listOf pairOf tx, listOf pairOf al with
+  | some refs, some taxids, some nodes, some al =>
+    if taxids.length ≠ refs.length then "bad-op" else
+    let t := mkTaxoA nodes al
+    let fuel := nodes.length + 1
+    let recs := mkRecs refs taxids
+    let s := refidxSetup t recs
+    let m := s.refs.length
+    if secs.length ≠ m then "bad-data" else
+    let cf := countFn s.counts
+    let pos := keptPos t recs
+    match ((List.range m).zip secs).mapM fun (b, sec) => orderOnlyC m (cf b) cf sec with
+    | none => "bad-data"
+    | some ro =>
+      if m = 0 then "none" else
+      " ; ".intercalate (((List.range m).zip ro).map fun (b, ow) =>
+        s!"r{pos.getD b 0} " ++
+        match refidxIndex t fuel recs b ow with
+        | .error _ => "panic"
+        | .ok (.ok idx) => showIndex idx
+        | .ok (.error e) => showBad e)
+  | _, _, _, _ => "bad-op"
+
+def runS2 (rs ts tx al : String) : String :=
+  match listOf unhex rs, listOf String.toNat? ts, listOf pairOf tx, listOf pairOf al with
+  | some refs, some taxids, some nodes, some al =>
+    if taxids.length ≠ refs.length then "bad-op" else
+    if tag2SetupOk (mkTaxoA nodes al) (nodes.length + 1) (mkRecs refs taxids) then "ok" else "panic"
+  | _, _, _, _ => "bad-op"
+
+def memberOf (s : String) : Option (Nat × Option Nat) :=
+  match s.splitOn ":" with
+  | [a, b] => do
+    let a ← a.toNat?
+    if b = "-" then pure (a, none) else do
+      let b ← b.toNat?
+      pure (a, some b)
+  | _ => none
+
+def runFW (rs ts tx al ms : String) (secs : List String) : String :=
+  match listOf unhex rs, listOf String.toNat? ts, listOf pairOf tx, listOf pairOf al, listOf memberOf ms with
+  | some refs, some taxids, some nodes, some al, some members =>
+    if taxids.length ≠ refs.length ∨ members.any (fun p => p.1 ≥ refs.length) then "bad-op" else
+    let t := mkTaxoA nodes al
+    let fuel := nodes.length + 1
+    let recs := mkRecs refs taxids
+    let kmers := recs.map fun r => Kmer.count4mer r.seq
+    let seqs := members.map fun p => recs.getD p.1 ⟨[], none⟩
+    match sliceWorkerSetup t kmers seqs (members.map (·.2)) with
+    | .error e => showBad e
+    | .ok s =>
+      let m := seqs.length
+      if m = 0 then "none" else
+      -- a nil taxon: `IndexSequence` of the first sequence ends in log.Panicf (inside a goroutine of the worker)
+      if hasNil s.taxa then "panic" else
+      if secs.length ≠ m then "bad-data" else
+      let cf := countFn s.counts
+      match ((List.range m).zip secs).mapM fun (b, sec) => orderOnlyC m (cf b) cf sec with
+      | none => "bad-data"
+      | some ro =>
+        " ; ".intercalate (((List.range m).zip ro).map fun (b, ow) =>
+          match indexSequenceVT t fuel s.taxa b (refFn s.refs) cf ow with
+          | .error _ => "panic"
+          | .ok (.ok idx) => showIndex idx
+          | .ok (.error e) => showBad e)
+  | _, _, _, _, _ => "bad-op"
+
 def run (line : String) : String :=
   match line.splitOn " | " with
   | [] => "bad-op"
@@ -448,6 +586,10 @@ def run (line : String) : String :=
     match words head, secs with
     | ["conc", _g, _r, rs, ts, tx, qs, xs], secs => runConc rs ts tx qs xs secs
     | ["race", "conc", _g, _r, rs, ts, tx, qs, xs], secs => runConc rs ts tx qs xs secs
+    | ["cl1", qs, rs, ts, tx, al], secs => runCL1 qs rs ts tx al secs
+    | ["rx", rs, ts, tx, al], secs => runRX rs ts tx al secs
+    | ["s2", rs, ts, tx, al], [] => runS2 rs ts tx al
+    | ["fw", rs, ts, tx, al, ms], secs => runFW rs ts tx al ms secs
     | ["cw", a, b], [] =>
       match unhex a, unhex b with
       | some a, some b => toString (common4 a b)
